@@ -441,6 +441,8 @@ def save_score_midi(
             # in case of incomplete measures later in the score.
             all_ts = list(part.iter_all(score.TimeSignature))
             ts_changing_time = [ts.start.t for ts in all_ts]
+            # starts of the measures that get a signature of their own
+            irregular_measure_time = []
             for measure in part.iter_all(score.Measure):
                 m_duration_beat = part.beat_map(measure.end.t) - part.beat_map(
                     measure.start.t
@@ -459,6 +461,7 @@ def save_score_midi(
                     ts_changing_time.append(
                         measure.start.t
                     )  # keep track of changing the ts
+                    irregular_measure_time.append(measure.start.t)
                     # now go back to original ts if there is no ts change after this measure
                     if not any([ts_t > measure.start.t for ts_t in ts_changing_time]):
                         meta_events[part][to_ppq(measure.end.t)].append(
@@ -476,7 +479,7 @@ def save_score_midi(
 
             # now add the normal time signature change
             for ts in part.iter_all(score.TimeSignature):
-                if ts.start.t in ts_changing_time:
+                if ts.start.t in irregular_measure_time:
                     # don't add if something is already added at this time to cover the case of a ts change when the first measure is shorter/longer
                     pass
                 else:
